@@ -92,8 +92,18 @@ def run_case(c):
                 if n < old and (n % 2 == 0) != want_even:  # an uncropped axis keeps the grid's own size
                     bad("parity", "shape %r for parity %r on grid %r" % ((n1, m1), c["parity"], gpts))
         if n1 > n0 or m1 > m0:
-            bad("crop/larger-than-full", "cropped shape %r exceeds the full pattern %r" % ((n1, m1), (n0, m0)))
-            return {"viol": viol}
+            # an angle beyond the simulated range: the pattern is zero-padded; the FULL pattern must be its centred crop
+            if n1 < n0 or m1 < m0:
+                return {"viol": [], "obs": "mixed pad/crop", "nt": False, "notes": ["max_angle %r pads one axis and crops the other on grid %r" % (ang, gpts)]}
+            i0, j0 = n1 // 2 - n0 // 2, m1 // 2 - m0 // 2
+            inner = sa[..., i0 : i0 + n0, j0 : j0 + m0]
+            outer = sa.copy()
+            outer[..., i0 : i0 + n0, j0 : j0 + m0] = 0
+            if not np.array_equal(inner, full) or np.any(outer != 0):
+                bad("crop/padded-not-centred", "max_angle=%r beyond the grid: the padded pattern does not contain the full pattern at its centre" % (ang,))
+            if not np.array_equal(ua, np.fft.ifftshift(sa, axes=(-2, -1))):
+                bad("layout/unshifted-not-ifftshift", "fftshift=False pattern is not ifftshift(fftshift=True pattern) for padded shape %r" % ((n1, m1),))
+            return {"viol": viol, "obs": "%r padded" % ((n1, m1),), "nt": True, "tr": 3, "ref": 2}
         i0, j0 = n0 // 2 - n1 // 2, m0 // 2 - m1 // 2
         ref = full[..., i0 : i0 + n1, j0 : j0 + m1]
         if not np.array_equal(sa, ref):
